@@ -103,13 +103,26 @@ func blockToSeqPair(alignedBlock alignedBlockInfo, ref []byte) alignPair {
 	if len(insertions) > 0 {
 		sort.Sort(byStart(insertions))
 
+		// overlapping records of one query can both carry the same insertion (same place, same
+		// length): it is one insertion of the query, which those records already have
+		type placedInsertion struct{ row, start, length int }
+		carried := make(map[placedInsertion]bool)
+		for _, insertion := range insertions {
+			carried[placedInsertion{insertion.rowNumber, insertion.start, insertion.length}] = true
+		}
+		handled := make(map[placedInsertion]bool)
+
 		// for every insertion
 		for _, insertion := range insertions {
+			if handled[placedInsertion{-1, insertion.start, insertion.length}] {
+				continue
+			}
+			handled[placedInsertion{-1, insertion.start, insertion.length}] = true
 			// this is the pair it is already present in, which we will skip:
 			rowNumber := insertion.rowNumber
 			for j := range alignedBlock.seqpairArray {
 				// don't reinsert - the insertion already exists in this one
-				if j == rowNumber {
+				if j == rowNumber || carried[placedInsertion{j, insertion.start, insertion.length}] {
 					continue
 				}
 
@@ -201,7 +214,13 @@ func blockToSeqPair(alignedBlock alignedBlockInfo, ref []byte) alignPair {
 	// extend the alignment to the ref length + the total number of
 	// insertions relative to the reference...
 	totalInsertionLength := 0
+	counted := make(map[[2]int]bool)
 	for _, I := range insertions {
+		// (an insertion that overlapping records share is there once)
+		if counted[[2]int{I.start, I.length}] {
+			continue
+		}
+		counted[[2]int{I.start, I.length}] = true
 		totalInsertionLength += I.length
 	}
 
